@@ -539,6 +539,8 @@ impl Visit for Analyzer<'_> {
   }
 
   fn visit_switch_case(&mut self, n: &SwitchCase) {
+    n.test.visit_with(self);
+
     let prev_end = self.scope.end;
     let mut case_end = None;
 
